@@ -440,6 +440,41 @@ static void moved_store_case(seqx::Runner &R, int how) {
     R.end(true);
 }
 
+// ------------------------------------------------------------------------------------------------ family F8: frames in a caller's buffer
+using BufStore = cocls::reusable_buffer_storage<std::vector<char>>;
+static cocls::with_allocator<BufStore, cocls::async<void>> buf_waiter(BufStore &, cocls::future<int> &f, int *seen) {
+    co_await f;
+    ++*seen;
+}
+static void buffer_store_case(seqx::Runner &R) {
+    std::string d = "F8 frames in a caller-provided buffer (reusable_buffer_storage), adaptor created per call";
+    if (!R.next_case_named(d)) return;
+    R.begin(d);
+    uint64_t n = 0;
+    {
+        std::vector<char> buf;
+        int seen = 0;
+        auto round = [&] {
+            BufStore st(buf);  // a fresh adaptor over the long-lived buffer
+            cocls::future<int> f;
+            cocls::promise<int> p = f.get_promise();
+            buf_waiter(st, f, &seen).detach();
+            p(1);
+        };
+        round();  // warm-up: the buffer grows once
+        region_begin();
+        round();
+        round();
+        n = region_allocs();
+        if (seen != 3) R.fail("noalloc/harness", "%d of 3 waiters released", seen);
+    }
+    if (n) R.fail("noalloc/buffer-storage", "%lu dynamic allocations for frames placed in an already large enough caller buffer", (unsigned long)n);
+    R.step();
+    R.state(seqx::hash_str(d));
+    R.outcome(n);
+    R.end(true);
+}
+
 }  // namespace
 
 void seqx_run(seqx::Runner &R, const std::string &tier) {
@@ -462,6 +497,7 @@ void seqx_run(seqx::Runner &R, const std::string &tier) {
                             f1_case<Big>(R, "struct32", nco, nh, cb, out, false, prebuilt);
                     }
     mutex_case(R);
+    buffer_store_case(R);
     moved_store_case(R, 0);
     moved_store_case(R, 1);
     for (int out = 0; out < 3; out++)
